@@ -233,7 +233,16 @@ def run_case(args):
                     if not is_sorted(r5["rows"], [(len(hidden) + i, desc) for i in range(len(kn))]):
                         fail("order-by-not-sorted", f"{q5}: keys {[tuple(x[len(hidden):]) for x in r5['rows'][:10]]}", q5)
                         break
-                    if [list(x) for x in r4["rows"]] != want:
+                    # rows with equal keys may come in any order (key values are not unique in a third of the tables): the two
+                    # sequences are compared tie group by tie group, as multisets within a group
+                    nh, pos, same = len(hidden), 0, len(r4["rows"]) == len(r5["rows"])
+                    while same and pos < len(r5["rows"]):
+                        end = pos
+                        while end < len(r5["rows"]) and tuple(r5["rows"][end][nh:]) == tuple(r5["rows"][pos][nh:]):
+                            end += 1
+                        same = ms([tuple(x) for x in r4["rows"][pos:end]]) == ms([tuple(x[:nh]) for x in r5["rows"][pos:end]])
+                        pos = end
+                    if not same:
                         fail("order-by-unprojected-key-wrong-sequence", f"{q4}: {r4['rows'][:8]} expected {want[:8]}", q4)
                         break
                     res["feats"]["order-by-unprojected-key"] = res["feats"].get("order-by-unprojected-key", 0) + 1
